@@ -2184,9 +2184,16 @@ class EntityInst(Instance):
 
         comp_name = self._scope.lookup_name(self)
 
+        content = [*self._generic_map(), *self._port_map()]
+
+        if len(content) == 0:
+            # without generic/port map the instantiation statement
+            # is not terminated by the closing line of the port map
+            return TextBlock(f"{comp_name}: entity {path}.{entity_name}{arch_spec};")
+
         return TextBlock(
             title=f"{comp_name}: entity {path}.{entity_name}{arch_spec}",
-            content=[*self._generic_map(), *self._port_map()],
+            content=content,
         )
 
 
